@@ -403,10 +403,13 @@ export class TypeGen {
     const r = this.rng;
     const key = r.pick(DISC_KEYS);
     const vals = r.shuffle(DISC_VALS).slice(0, 2 + r.below(3));
+    const second = r.chance(0.25) ? r.pick(DISC_KEYS.filter((k) => k !== key).concat(["zz_mode", "a_shape"])) : null;
     const branches = vals.map((v, i) => {
-      const ps = this.props(depth, r.below(3)).filter((p) => p.name !== key);
+      const ps = this.props(depth, r.below(3)).filter((p) => p.name !== key && p.name !== second);
       const dv = i === 0 && r.chance(0.2) ? A.union([A.lit(v), A.lit(v + "2")]) : A.lit(v);
       const all = [A.prop(key, dv), ...ps];
+      // sometimes a second property that would qualify as discriminator as well
+      if (second) all.push(A.prop(second, A.lit(`${v}_${i}`)));
       return A.obj(r.chance(0.5) ? all : r.shuffle(all));
     });
     if (r.chance(0.2)) {
